@@ -52,6 +52,8 @@ OBLIGATIONS = [
     "Grog.C11.old_rejects_self_overlap",
     "Grog.C11.old_accepts_dot_overlap",
     "Grog.C11.old_accepts_escaping_glob",
+    "Grog.C11.old_accepts_reentering_overlap",
+    "Grog.C11.resolved_path_spec",
 ]
 ASSUMPTIONS = [
     "workspace root is an absolute path (config.MustFindWorkspaceRoot)",
@@ -114,7 +116,7 @@ def graph(nodes, ws=WS, grouping="single"):
             pkgs.append({"targets": [n] if kind == "t" else [], "aliases": [n] if kind == "a" else []})
     req = {"op": "analysis.analyze", "ws": ws, "pkgs": pkgs}
     if os.environ.get("C11_MODEL_CFG") == "old":    # development aid: compare against the model of the tree before the fix: commits
-        req["cfg"] = {"skipSelf": False, "checkDirs": False, "dotRoot": False, "checkGlobs": False}
+        req["cfg"] = {"skipSelf": False, "checkDirs": False, "dotRoot": False, "checkGlobs": False, "resolve": False}
     return req
 
 
@@ -146,9 +148,9 @@ def _norm(parts, rooted):
 
 
 def _inside(p, d):
-    """is path p the directory d or below it? (normalised component lists relative to the workspace root; a path that
-    starts with '..' has left the root and is not inside the root directory [] — paths are compared lexically)"""
-    return p[:len(d)] == d and not (d == [] and p[:1] == [".."])
+    """is path p the directory d or below it? Both are ABSOLUTE normalised component lists (the output resolved from the
+    workspace root and its package), so '../<rootname>/x' and 'x' are the same file and no special cases are needed"""
+    return p[:len(d)] == d
 
 
 def reference_defects(g):
@@ -187,7 +189,7 @@ def reference_defects(g):
     tmap = {lab(x): (k, x) for k, x in nodes}
     is_test = lambda t: t["name"].endswith("test")
     all_outs = lambda t: t["outs"] + ([{"k": "file", "id": t["bin"]}] if t["bin"] else [])
-    opath = lambda t, o: _norm(t["pkg"].split("/") + o["id"].split("/"), False)
+    opath = lambda t, o: _norm(ws + t["pkg"].split("/") + o["id"].split("/"), True)     # where the output really is
     # overlapping outputs of two different targets that are not ordered by dependency
     for i, t in enumerate(targets):
         for u in targets[i + 1:]:
@@ -208,8 +210,12 @@ def reference_defects(g):
                         else:                       # nested directories
                             hit = _inside(pb, pa) or _inside(pa, pb)
                     if hit:
-                        dotdir = pa is not None and ((a["k"] == "dir" and pa == []) or (b["k"] == "dir" and pb == [])) and pa != pb
-                        defects.add(("conflict", "dir-dot" if dotdir else ""))
+                        dotdir = pa is not None and ((a["k"] == "dir" and pa == ws) or (b["k"] == "dir" and pb == ws)) and pa != pb
+                        # does the overlap show only after resolving from the root (a spelling that re-enters the root by name)?
+                        ra = _norm((t if a is o else u)["pkg"].split("/") + a["id"].split("/"), False) if pa is not None else None
+                        rb = _norm((t if b is o else u)["pkg"].split("/") + b["id"].split("/"), False) if pa is not None else None
+                        reenter = pa is not None and ".." in (ra[:1] + rb[:1])
+                        defects.add(("conflict", "reenter" if reenter else ("dir-dot" if dotdir else "")))
     for t in targets:
         for i in t["inputs"] + t.get("globs", []):      # a pattern that climbs out of the package escapes it too
             if i.startswith("/") or _norm(i.split("/"), False)[:1] == [".."]:
@@ -232,6 +238,7 @@ def reference_defects(g):
 
 def single_target_overlap(g):
     """does some single target declare two outputs that overlap each other?"""
+    ws = _norm(g["ws"].split("/"), True)
     for k, t in nodes_of(g):
         if k != "t":
             continue
@@ -242,8 +249,8 @@ def single_target_overlap(g):
                     if o["k"] == q["k"] and o["id"] == q["id"]:
                         return True
                     continue
-                po = _norm(t["pkg"].split("/") + o["id"].split("/"), False)
-                pq = _norm(t["pkg"].split("/") + q["id"].split("/"), False)
+                po = _norm(ws + t["pkg"].split("/") + o["id"].split("/"), True)
+                pq = _norm(ws + t["pkg"].split("/") + q["id"].split("/"), True)
                 if o["k"] == "file" and q["k"] == "file":
                     if po == pq:
                         return True
@@ -505,6 +512,8 @@ def sig_of(g, impl, ref):
             return "accepted:directory-output-outside-workspace"
         if refk == ["input-escape"] and all(d == "glob" for k, d in ref):
             return "accepted:input-glob-pattern-outside-package"
+        if refk == ["conflict"] and all(d == "reenter" for k, d in ref):
+            return "accepted:overlap-of-outputs-spelled-through-the-workspace-root-name"
         if refk == ["conflict"] and all(d == "dir-dot" for k, d in ref):
             return "accepted:overlap-with-directory-output-dot"
         return "accepted:" + ",".join(sorted(set(tags)))
@@ -835,6 +844,14 @@ def run(ctx):
     for pkg in ["", "a", "a/b", "a/", "/r", "..", "."]:
         for out in short:
             freqs.append({"op": "analysis.pathfn", "fn": "cleanout", "pkg": pkg, "out": out})
+    for ws in ["/", "/w", "/w/s", "/w/s/", "/w/../s"]:
+        for pkg in ["", "a", "a/b", "s", "..", "/r"]:
+            for out in short[:364] + ["../s/x", "../../w/s/x", "../../../w/s", "../a/x", "/x", "/../x"]:
+                freqs.append({"op": "analysis.pathfn", "fn": "resolveout", "ws": ws, "pkg": pkg, "out": out})
+    absclean = sorted({"/" + c for c in cleaned if not c.startswith("/") and not c.startswith("..") and c != "."} | {"/"})
+    for a in absclean:
+        for b in absclean:
+            freqs.append({"op": "analysis.pathfn", "fn": "within", "p": a, "d": b})
     cov["pathfn_cases"] = len(freqs)
     areqs = []
     for _ in range(2000 if quick else 8000):
